@@ -4,13 +4,18 @@ package c07
 import (
 	"encoding/json"
 	"fmt"
+	"os"
 	"path"
+	"path/filepath"
 	"regexp"
 	"sort"
+	"strconv"
 	"strings"
 	"testing"
+	"unicode/utf8"
 
 	"github.com/evanw/esbuild/pkg/api"
+	"github.com/evanw/esbuild/verif/fsgen"
 	"github.com/evanw/esbuild/verif/jsref"
 	"github.com/evanw/esbuild/verif/smref"
 	"github.com/evanw/esbuild/verif/vdrv"
@@ -19,136 +24,76 @@ import (
 
 var H *vdrv.H
 
-// ----------------------------------------------------------------------------- marker programs
+var debug = os.Getenv("VERIF_C07_DEBUG") != ""
 
-// Every identifier, string and number in a generated program is a unique marker: identifiers mk<N>_<file>,
-// strings "s<N>_<file>", numbers 9<N><file digits>. Layout is adversarial: long lines, tabs, CRLF, U+2028 in
-// strings, astral and combining characters before markers on the same line.
-type mg struct {
-	t    *rapid.T
-	sb   strings.Builder
-	next int
-	file int
-	decl []string
-}
+// ----------------------------------------------------------------------------- markers
 
-func (g *mg) intn(n int, l string) int {
-	if n <= 1 {
-		return 0
-	}
-	return rapid.IntRange(0, n-1).Draw(g.t, l)
-}
-func (g *mg) id() int { g.next++; return g.next }
-
-func (g *mg) ws() string {
-	return []string{" ", " ", "  ", "\t", "\n", "\r\n", "\n\n", " /* é */ ", " /* 😀😀 */ ", " /* ñ́ */ ", "\n  ", "    ", " /* */ ", "\n// c\n", ""}[g.intn(15, "ws")]
-}
-func (g *mg) ident() string { return fmt.Sprintf("mk%d_%d", g.id(), g.file) }
-func (g *mg) str() string {
-	q := []string{"\"", "'"}[g.intn(2, "q")]
-	pre := []string{"", "", "é", "😀", "\\u2028", "a b", "\\n"}[g.intn(7, "strpre")]
-	return fmt.Sprintf("%ss%d_%d%s%s", q, g.id(), g.file, pre, q)
-}
-func (g *mg) num() string { return fmt.Sprintf("9%04d%d", g.id(), g.file) }
-
-func (g *mg) expr(d int) string {
-	if d <= 0 {
-		switch g.intn(4, "leaf") {
-		case 0:
-			if len(g.decl) > 0 {
-				return g.decl[g.intn(len(g.decl), "ref")]
-			}
-			return g.num()
-		case 1:
-			return g.str()
-		default:
-			return g.num()
-		}
-	}
-	switch g.intn(8, "expr") {
-	case 0:
-		return g.expr(d-1) + g.ws() + "-" + g.ws() + g.expr(d-1) // not "+": constant strings would be folded into one token
-	case 1:
-		return "sink(" + g.ws() + g.expr(d-1) + "," + g.ws() + g.expr(d-1) + g.ws() + ")"
-	case 2:
-		return "[" + g.expr(d-1) + "," + g.ws() + g.expr(d-1) + "]"
-	case 3:
-		return "{" + g.ws() + g.ident() + ":" + g.ws() + g.expr(d-1) + g.ws() + "}" // property name marker
-	case 4:
-		return "(" + g.expr(d-1) + ")." + g.ident()
-	case 5:
-		return "`t" + fmt.Sprint(g.id()) + "${sink(" + g.expr(d-1) + ")}é😀${sink(" + g.expr(d-1) + ")}`" // literals in holes would be folded into the template
-	case 6:
-		p := g.ident()
-		old := g.decl
-		g.decl = append(append([]string{}, g.decl...), p)
-		body := g.expr(d - 1)
-		g.decl = old
-		return "function" + g.ws() + "(" + p + ")" + g.ws() + "{" + g.ws() + "return" + " " + body + g.ws() + "}"
-	default:
-		return g.expr(d - 1)
-	}
-}
-
-func (g *mg) program(nstmts int, exportSome bool, imports []string) string {
-	if g.intn(6, "bom") == 0 {
-		g.sb.WriteString("\ufeff")
-	}
-	for _, im := range imports {
-		g.sb.WriteString(im + g.ws())
-	}
-	for i := 0; i < nstmts; i++ {
-		switch g.intn(5, "stmt") {
-		case 0, 1:
-			name := g.ident()
-			kw := []string{"var", "let", "const"}[g.intn(3, "kw")]
-			ex := ""
-			if exportSome && g.intn(3, "export") == 0 {
-				ex = "export "
-			}
-			g.sb.WriteString(ex + kw + g.ws() + name + g.ws() + "=" + g.ws() + g.expr(2) + ";" + g.ws())
-			g.decl = append(g.decl, name)
-		case 2:
-			g.sb.WriteString("sink(" + g.expr(2) + ");" + g.ws())
-		case 3:
-			name := g.ident()
-			p := g.ident()
-			old := g.decl
-			g.decl = append(append([]string{}, g.decl...), p)
-			body := g.expr(2)
-			g.decl = old
-			g.sb.WriteString("function " + name + "(" + p + ")" + g.ws() + "{" + g.ws() + "if (" + p + ") return " + body + ";" + g.ws() + "sink(" + g.str() + ");" + g.ws() + "}" + g.ws() + "sink(" + name + ");" + g.ws())
-			g.decl = append(g.decl, name)
-		default:
-			g.sb.WriteString("/* 😀 long " + strings.Repeat("x", g.intn(200, "pad")) + " */" + g.ws() + "sink(" + g.expr(1) + ");" + g.ws())
-		}
-	}
-	return g.sb.String()
-}
-
-var markerIdent = regexp.MustCompile(`^mk\d+_\d+$`)
-var markerStr = regexp.MustCompile(`^s\d+_\d+`)
+var markerIdent = regexp.MustCompile(`^mk\d+_\d+(é|𝒳)?$`)
+var markerLit = regexp.MustCompile(`^[st]\d+_\d+`)
 var markerNum = regexp.MustCompile(`^9\d{4}\d+$`)
+
+// markerKey names the unique marker a token carries ("" = the token is not a marker). Two tokens with the same key
+// are the same marker, whatever their spelling (quotes, escapes, number format, template vs. string).
+func markerKey(t jsref.Token) (string, bool) {
+	switch t.Kind {
+	case jsref.TString, jsref.TTemplateHead, jsref.TTemplateNoSub:
+		if t.Str == nil {
+			return "", false
+		}
+		if m := markerLit.FindString(jsref.UTF16ToString(t.Str)); m != "" {
+			return "L:" + m, true
+		}
+	case jsref.TNum:
+		if t.Num >= 0 && t.Num < 1e15 && t.Num == float64(int64(t.Num)) {
+			if s := strconv.FormatInt(int64(t.Num), 10); markerNum.MatchString(s) {
+				return "N:" + s, true
+			}
+		}
+	case jsref.TIdent:
+		if markerIdent.MatchString(t.Ident) {
+			return "I:" + t.Ident, true
+		}
+	case jsref.TPrivateName:
+		if markerIdent.MatchString(t.Ident) {
+			return "I:#" + t.Ident, true
+		}
+	}
+	return "", false
+}
+
+func isIdentLike(t jsref.Token) bool { return t.Kind == jsref.TIdent || t.Kind == jsref.TPrivateName }
+
+// identName is the name as the `names` array spells it.
+func identName(t jsref.Token) string {
+	if t.Kind == jsref.TPrivateName {
+		return "#" + t.Ident
+	}
+	return t.Ident
+}
 
 // ----------------------------------------------------------------------------- cases
 
 type Case struct {
-	Files      map[string]string `json:"files"` // f0.js is the entry (imports the others)
+	Files      map[string]string `json:"files"`               // what esbuild reads; f0.js is the entry (imports the others)
+	Originals  map[string]string `json:"originals,omitempty"` // pre-step cases: the files the input maps of Files point to (default: Files)
+	MapFiles   map[string]string `json:"map_files,omitempty"` // pre-step cases: sibling map files
+	Disk       bool              `json:"disk,omitempty"`      // build from a real scratch directory instead of the in-memory plugin
 	Bundle     bool              `json:"bundle"`
 	Splitting  bool              `json:"splitting,omitempty"`
-	Minify     string            `json:"minify,omitempty"` // "", ws, ids, all
-	SourceMap  string            `json:"sourcemap"`        // inline | linked | external | both
+	Minify     string            `json:"minify,omitempty"` // "", ws, ids, syntax, all
+	Charset    string            `json:"charset,omitempty"`
+	SourceMap  string            `json:"sourcemap"` // inline | linked | external | both
 	NoContent  bool              `json:"no_sources_content,omitempty"`
 	Banner     string            `json:"banner,omitempty"`
 	Footer     string            `json:"footer,omitempty"`
 	SourceRoot string            `json:"source_root,omitempty"`
 	ChunkNames string            `json:"chunk_names,omitempty"`
-	Compose    bool              `json:"compose,omitempty"` // first compile every file alone with an inline map, then build from those
+	Compose    bool              `json:"compose,omitempty"` // first compile every file alone with esbuild (inline map), then build from those
 	Format     string            `json:"format,omitempty"`
 }
 
-func (c Case) options(files map[string]string) api.BuildOptions {
-	o := api.BuildOptions{LogLevel: api.LogLevelSilent, Write: false, Outdir: "/out", AbsWorkingDir: "/in", Bundle: c.Bundle, Splitting: c.Splitting,
+func (c Case) options(root string, files map[string]string) api.BuildOptions {
+	o := api.BuildOptions{LogLevel: api.LogLevelSilent, Write: false, Outdir: root + "/out", AbsWorkingDir: root, Bundle: c.Bundle, Splitting: c.Splitting,
 		SourceRoot: c.SourceRoot, ChunkNames: c.ChunkNames}
 	switch c.SourceMap {
 	case "inline":
@@ -168,8 +113,16 @@ func (c Case) options(files map[string]string) api.BuildOptions {
 		o.MinifyWhitespace = true
 	case "ids":
 		o.MinifyIdentifiers = true
+	case "syntax":
+		o.MinifySyntax = true
 	case "all":
 		o.MinifyWhitespace, o.MinifyIdentifiers, o.MinifySyntax = true, true, true
+	}
+	switch c.Charset {
+	case "utf8":
+		o.Charset = api.CharsetUTF8
+	case "ascii":
+		o.Charset = api.CharsetASCII
 	}
 	if c.Banner != "" {
 		o.Banner = map[string]string{"js": c.Banner}
@@ -188,15 +141,21 @@ func (c Case) options(files map[string]string) api.BuildOptions {
 	if c.Splitting {
 		o.Format = api.FormatESModule
 	}
-	o.EntryPoints = []string{"/in/f0.js"}
+	o.EntryPoints = []string{root + "/f0.js"}
 	if c.Splitting && len(files) > 2 && !strings.Contains(files["f0.js"], "import(\"./f1.js\")") {
-		o.EntryPoints = append(o.EntryPoints, "/in/f1.js")
+		o.EntryPoints = append(o.EntryPoints, root+"/f1.js")
+	}
+	if c.Disk {
+		if c.Bundle {
+			o.External = []string{"sinkmod"}
+		}
+		return o
 	}
 	o.Plugins = []api.Plugin{{Name: "mem", Setup: func(b api.PluginBuild) {
 		b.OnResolve(api.OnResolveOptions{Filter: ".*"}, func(a api.OnResolveArgs) (api.OnResolveResult, error) {
 			p := a.Path
 			if strings.HasPrefix(p, "./") {
-				p = "/in/" + p[2:]
+				p = root + "/" + p[2:]
 			}
 			if p == "sinkmod" {
 				return api.OnResolveResult{Path: p, External: true}, nil
@@ -204,22 +163,147 @@ func (c Case) options(files map[string]string) api.BuildOptions {
 			return api.OnResolveResult{Path: p, Namespace: "file"}, nil
 		})
 		b.OnLoad(api.OnLoadOptions{Filter: ".*", Namespace: "file"}, func(a api.OnLoadArgs) (api.OnLoadResult, error) {
-			s, ok := files[strings.TrimPrefix(a.Path, "/in/")]
+			s, ok := files[strings.TrimPrefix(a.Path, root+"/")]
 			if !ok {
 				return api.OnLoadResult{}, fmt.Errorf("no such file %s", a.Path)
 			}
-			return api.OnLoadResult{Contents: &s, Loader: api.LoaderJS, ResolveDir: "/in"}, nil
+			return api.OnLoadResult{Contents: &s, Loader: api.LoaderJS, ResolveDir: root}, nil
 		})
 	}}}
 	return o
 }
 
-func decodeStringValue(t jsref.Token) string { return jsref.UTF16ToString(t.Str) }
+type pos struct{ l, c int }
+
+// origFile is an original source, indexed by the independent tokenizer.
+type origFile struct {
+	text   string
+	starts []int
+	tokAt  map[pos]jsref.Token
+}
+
+func indexOriginal(text string) (*origFile, bool) {
+	toks, err := jsref.Tokenize(text, jsref.Options{Module: true})
+	if err != nil {
+		if toks, err = jsref.Tokenize(text, jsref.Options{}); err != nil {
+			return nil, false
+		}
+	}
+	o := &origFile{text: text, starts: smref.Lines(text), tokAt: map[pos]jsref.Token{}}
+	for _, t := range toks {
+		o.tokAt[pos{t.Line, t.Col16}] = t
+	}
+	return o, true
+}
+
+// lineLen16 is the length of line l in UTF-16 units, without its terminator.
+func lineLen16(text string, starts []int, l int) int {
+	end := len(text)
+	if l+1 < len(starts) {
+		end = starts[l+1]
+	}
+	s := text[starts[l]:end]
+	for _, term := range []string{"\r\n", "\n", "\r", "\u2028", "\u2029"} {
+		if strings.HasSuffix(s, term) {
+			s = s[:len(s)-len(term)]
+			break
+		}
+	}
+	return len(jsref.UTF16(s))
+}
+
+// validateInputMaps checks (independently of esbuild) that a pre-step case is what it claims to be: every marker token of
+// every generated file G has a segment of G's own map exactly at its start, and that segment names the start of the
+// same marker in an original. Anything else is a defect of the case, not of esbuild.
+func validateInputMaps(c Case, origs map[string]*origFile) (string, string) {
+	for name, code := range c.Files {
+		var raw []byte
+		mapDir := ""
+		if b, ok := smref.InlineURL(code); ok {
+			raw = b
+		} else if i := strings.LastIndex(code, "//# sourceMappingURL="); i >= 0 {
+			p := strings.TrimRight(code[i+len("//# sourceMappingURL="):], "\r\n")
+			mf, ok := c.MapFiles[p]
+			if !ok {
+				return "map-file-missing", p
+			}
+			raw, mapDir = []byte(mf), path.Dir(p)
+			if mapDir == "." {
+				mapDir = ""
+			}
+		} else {
+			return "no-map-comment", name
+		}
+		segs, err := flattenInputMap(raw, mapDir)
+		if err != nil {
+			return "input-map-unreadable", name + ": " + err.Error()
+		}
+		at := map[pos]flatSeg{}
+		for _, s := range segs {
+			at[pos{s.genLine, s.genCol}] = s
+		}
+		toks, err := jsref.Tokenize(code, jsref.Options{Module: true})
+		if err != nil {
+			return "generated-file-unreadable", name + ": " + err.Error()
+		}
+		for _, t := range toks {
+			k, ok := markerKey(t)
+			if !ok {
+				continue
+			}
+			s, ok := at[pos{t.Line, t.Col16}]
+			if !ok {
+				return "no-input-segment", name + " " + k
+			}
+			of := origs[s.key]
+			if of == nil {
+				return "unknown-original", name + " " + s.key
+			}
+			ot, ok := of.tokAt[pos{s.origLine, s.origCol}]
+			if ok {
+				k2, _ := markerKey(ot)
+				ok = k2 == k
+			}
+			if !ok {
+				return "inexact-input-segment", name + " " + k
+			}
+			if s.hasName && s.name != identName(ot) {
+				return "wrong-input-name", name + " " + k
+			}
+		}
+	}
+	return "", ""
+}
+
+type stats struct {
+	verified, nonASCIIBefore, astralBefore, joined, genNonASCIIBefore, genAstralBefore, afterOddTerminator int
+	kinds                                                                                                  map[string]int
+	namesChecked, inlinedConst, urlComments, segments                                                      int
+}
 
 // judge builds, decodes every emitted map with smref and checks marker segments.
 func judge(c Case) vdrv.Verdict {
 	originals := c.Files
+	if c.Originals != nil {
+		originals = c.Originals
+	}
+	origs := map[string]*origFile{}
+	for k, txt := range originals {
+		of, ok := indexOriginal(txt)
+		if !ok {
+			return vdrv.Skip("jsref-gap-original")
+		}
+		origs[k] = of
+	}
 	inputs := c.Files
+	if c.Originals != nil {
+		if why, detail := validateInputMaps(c, origs); why != "" {
+			if os.Getenv("VERIF_C07_DEBUG") != "" {
+				fmt.Println("C07-DEBUG bad-case", why, detail)
+			}
+			return vdrv.Skip("bad-case:" + why)
+		}
+	}
 	if c.Compose {
 		// first generation: each file compiled alone with an inline map (whitespace-minified so positions move)
 		inputs = map[string]string{}
@@ -231,7 +315,24 @@ func judge(c Case) vdrv.Verdict {
 			inputs[name] = string(r.Code)
 		}
 	}
-	r := api.Build(c.options(inputs))
+	root := "/in"
+	if c.Disk {
+		dir, err := fsgen.MkdirScratch("c07-")
+		if err != nil {
+			return vdrv.Skip("scratch-dir")
+		}
+		defer os.RemoveAll(dir)
+		root = dir
+		for _, set := range []map[string]string{c.Files, c.MapFiles, c.Originals} {
+			for name, txt := range set {
+				p := filepath.Join(dir, filepath.FromSlash(name))
+				if os.MkdirAll(filepath.Dir(p), 0o755) != nil || os.WriteFile(p, []byte(txt), 0o644) != nil {
+					return vdrv.Skip("scratch-write")
+				}
+			}
+		}
+	}
+	r := api.Build(c.options(root, inputs))
 	if len(r.Errors) > 0 {
 		return vdrv.Skip("build-error:" + r.Errors[0].Text)
 	}
@@ -239,8 +340,7 @@ func judge(c Case) vdrv.Verdict {
 	for _, f := range r.OutputFiles {
 		outs[f.Path] = string(f.Contents)
 	}
-	verified, nonASCIIBefore, joined := 0, 0, 0
-	cls := []string{"map=" + c.SourceMap, "minify=" + c.Minify}
+	st := &stats{kinds: map[string]int{}}
 	var jsFiles []string
 	for p := range outs {
 		if strings.HasSuffix(p, ".js") {
@@ -248,200 +348,331 @@ func judge(c Case) vdrv.Verdict {
 		}
 	}
 	sort.Strings(jsFiles)
+	if len(jsFiles) == 0 {
+		return vdrv.Fail("no JavaScript output", "an output file", "")
+	}
 	for _, jsPath := range jsFiles {
-		code := outs[jsPath]
-		var raws [][]byte
-		if c.SourceMap == "inline" || c.SourceMap == "both" {
-			b, ok := smref.InlineURL(code)
-			if !ok {
-				return vdrv.Fail("no inline source map in "+jsPath, "inline map", code)
-			}
-			raws = append(raws, b)
-		}
-		if c.SourceMap != "inline" {
-			mp, ok := outs[jsPath+".map"]
-			if !ok {
-				return vdrv.Fail("no "+jsPath+".map emitted", "map file", strings.Join(jsFiles, ","))
-			}
-			raws = append(raws, []byte(mp))
-			if c.SourceMap == "linked" && !strings.Contains(code, "//# sourceMappingURL="+path.Base(jsPath)+".map") {
-				return vdrv.Fail("linked source map comment missing or wrong in "+jsPath, "//# sourceMappingURL="+path.Base(jsPath)+".map", tail(code, 200))
-			}
-			if c.SourceMap == "external" && strings.Contains(code, "sourceMappingURL=") {
-				return vdrv.Fail("external source map must not be linked from "+jsPath, "no comment", tail(code, 200))
-			}
-		}
-		isModule := c.Format == "esm" || c.Splitting || c.Format == "" && !c.Bundle
-		prog, perr := jsref.Parse(code, jsref.Options{Module: isModule})
-		if perr != nil {
-			prog, perr = jsref.Parse(code, jsref.Options{Module: !isModule})
-			if perr != nil {
-				return vdrv.Skip("jsref-gap")
-			}
-		}
-		// token starts of the output by (line, col16)
-		type pos struct{ l, c int }
-		tokAt := map[pos]jsref.Token{}
-		for _, t := range prog.Tokens {
-			tokAt[pos{t.Line, t.Col16}] = t
-		}
-		for _, raw := range raws {
-			m, err := smref.Parse(raw)
-			if err != nil {
-				return vdrv.Fail("malformed source map for "+jsPath+": "+err.Error(), "well-formed version 3 map", string(raw))
-			}
-			if c.SourceRoot != m.SourceRoot {
-				return vdrv.Fail("sourceRoot not recorded", c.SourceRoot, m.SourceRoot)
-			}
-			// resolve sources to original texts
-			srcText := make([]string, len(m.Sources))
-			for i, s := range m.Sources {
-				base := path.Base(s)
-				txt, ok := originals[base]
-				if !ok {
-					return vdrv.Fail(fmt.Sprintf("map source %q is not one of the original input files", s), "an input file", strings.Join(m.Sources, ","))
-				}
-				srcText[i] = txt
-				if !c.NoContent {
-					if m.SourcesContent == nil || m.SourcesContent[i] == nil {
-						return vdrv.Fail("sourcesContent missing for "+s, "original text", "null")
-					}
-					if *m.SourcesContent[i] != txt {
-						return vdrv.Fail("sourcesContent differs from the original file "+s, txt, *m.SourcesContent[i])
-					}
-				} else if m.SourcesContent != nil {
-					for _, sc := range m.SourcesContent {
-						if sc != nil {
-							return vdrv.Fail("sourcesContent present although excluded", "none", *sc)
-						}
-					}
-				}
-			}
-			lineStarts := make([][]int, len(srcText))
-			for i := range srcText {
-				lineStarts[i] = smref.Lines(srcText[i])
-			}
-			markerTokens, markerMapped := 0, 0
-			for _, t := range prog.Tokens {
-				if isMarkerToken(t) {
-					markerTokens++
-				}
-			}
-			for _, seg := range m.Segments {
-				if !seg.HasSource {
-					continue
-				}
-				t, ok := tokAt[pos{seg.GenLine, seg.GenCol}]
-				if !ok || !isMarkerToken(t) {
-					continue // not the start of a marker token: synthetic / punctuation segments are not judged
-				}
-				markerMapped++
-				src := srcText[seg.Source]
-				off := smref.Offset(src, lineStarts[seg.Source], seg.OrigLine, seg.OrigCol)
-				if off < 0 {
-					return vdrv.Fail(fmt.Sprintf("%s: segment at %d:%d maps to %s %d:%d which is outside the source", path.Base(jsPath), seg.GenLine, seg.GenCol, m.Sources[seg.Source], seg.OrigLine, seg.OrigCol), "position inside the file", "")
-				}
-				rest := src[off:]
-				want := markerText(t)
-				okMatch := false
-				switch t.Kind {
-				case jsref.TString:
-					okMatch = len(rest) > 1 && (rest[0] == '"' || rest[0] == '\'' || rest[0] == '`') && strings.HasPrefix(rest[1:], want)
-				case jsref.TNum:
-					okMatch = strings.HasPrefix(rest, want)
-				case jsref.TIdent:
-					switch {
-					case markerIdent.MatchString(t.Ident): // a marker identifier that kept its name
-						okMatch = strings.HasPrefix(rest, t.Ident)
-						if okMatch && seg.HasName && m.Names[seg.Name] != t.Ident {
-							return vdrv.Fail(fmt.Sprintf("segment at %d:%d has name %q but the identifier there is %q", seg.GenLine, seg.GenCol, m.Names[seg.Name], t.Ident), t.Ident, m.Names[seg.Name])
-						}
-					case seg.HasName && markerIdent.MatchString(m.Names[seg.Name]): // a renamed marker: `names` holds the original
-						okMatch = strings.HasPrefix(rest, m.Names[seg.Name])
-						want = "the original identifier named in `names` (" + m.Names[seg.Name] + ")"
-					default:
-						continue // helper / import-namespace / non-marker identifiers (synthetic code) are not judged
-					}
-				}
-				if !okMatch {
-					return vdrv.Fail(fmt.Sprintf("%s: the token %q at generated %d:%d is mapped to %s %d:%d, where the source reads %q", path.Base(jsPath), t.Raw, seg.GenLine, seg.GenCol, m.Sources[seg.Source], seg.OrigLine, seg.OrigCol, clip(rest, 30)), want, clip(rest, 60))
-				}
-				verified++
-				lineStart := lineStarts[seg.Source][seg.OrigLine]
-				for _, b := range []byte(src[lineStart:off]) {
-					if b >= 0x80 {
-						nonASCIIBefore++
-						break
-					}
-				}
-				if seg.Source > 0 {
-					joined++
-				}
-			}
-			// no segment may point INTO a marker literal: a mapping names the token that starts at its generated
-			// position, and nothing starts in the middle of a string or number (this is what an off-by-one or a
-			// byte-vs-UTF-16 column mistake produces)
-			type span struct{ line, from, to int }
-			var lits []span
-			for _, t := range prog.Tokens {
-				if (t.Kind == jsref.TString && markerStr.MatchString(decodeStringValue(t))) || (t.Kind == jsref.TNum && markerNum.MatchString(t.Raw)) {
-					if !strings.ContainsAny(t.Raw, "\n\r") {
-						lits = append(lits, span{t.Line, t.Col16, t.Col16 + len(jsref.UTF16(t.Raw))})
-					}
-				}
-			}
-			for _, seg := range m.Segments {
-				if !seg.HasSource {
-					continue
-				}
-				for _, l := range lits {
-					if l.line == seg.GenLine && seg.GenCol > l.from && seg.GenCol < l.to {
-						return vdrv.Fail(fmt.Sprintf("%s: a segment starts at generated %d:%d, in the middle of the literal that spans columns %d–%d", path.Base(jsPath), seg.GenLine, seg.GenCol, l.from, l.to), "segments start at token starts", tail(m.Mappings, 200))
-					}
-				}
-			}
-			_ = markerTokens
-			_ = markerMapped
+		if v := judgeOutput(c, root, jsPath, outs, originals, origs, st); v != nil {
+			return *v
 		}
 	}
-	if nonASCIIBefore > 0 {
-		cls = append(cls, "non-ascii-before-marker")
+	cls := []string{"map=" + c.SourceMap, "minify=" + c.Minify, "charset=" + c.Charset, "format=" + c.Format}
+	flag := func(b bool, l string) {
+		if b {
+			cls = append(cls, l)
+		}
 	}
-	if joined > 0 {
-		cls = append(cls, "multi-source")
+	flag(c.Bundle, "bundle")
+	flag(len(c.Files) > 1, "multi-file")
+	flag(c.Splitting, "splitting")
+	flag(c.Splitting, "chunknames="+c.ChunkNames)
+	flag(c.Banner != "", "banner")
+	flag(strings.ContainsAny(c.Banner, "\r\n\u2028\u2029"), "banner-multiline")
+	flag(c.Footer != "", "footer")
+	flag(c.SourceRoot != "", "source-root")
+	flag(c.NoContent, "no-sources-content")
+	flag(!c.NoContent, "sources-content-compared")
+	flag(c.Compose, "composed-esbuild-pass")
+	flag(c.Originals != nil, "composed-own-step")
+	if c.Originals != nil {
+		inline, sibling, sections := false, false, false
+		for _, code := range c.Files {
+			if b, ok := smref.InlineURL(code); ok {
+				inline = true
+				sections = sections || strings.Contains(string(b), "\"sections\"")
+			} else {
+				sibling = true
+			}
+		}
+		for _, m := range c.MapFiles {
+			sections = sections || strings.Contains(m, "\"sections\"")
+		}
+		flag(inline, "own-step:inline-map")
+		flag(sibling, "own-step:sibling-map")
+		flag(sections, "own-step:index-map")
+		flag(len(c.Originals) > len(c.Files), "own-step:two-originals-in-one-file")
 	}
-	if c.Compose {
-		cls = append(cls, "composed")
+	all := ""
+	for _, t := range originals {
+		all += t + "\x00"
 	}
-	v := vdrv.Pass(verified >= 5 && (nonASCIIBefore > 0 || joined > 0), cls...)
-	v.Observed = fmt.Sprintf("%d marker segments verified (%d after non-ASCII text, %d in joined sources)", verified, nonASCIIBefore, joined)
+	flag(strings.Contains(all, "\r\n"), "orig:crlf")
+	flag(regexp.MustCompile(`\r[^\n]`).MatchString(all), "orig:lone-cr")
+	flag(strings.ContainsAny(all, "\u2028\u2029"), "orig:u2028/9")
+	flag(strings.Contains(all, "\t"), "orig:tab")
+	flag(st.nonASCIIBefore > 0, "non-ascii-before-marker")
+	flag(st.astralBefore > 0, "astral-before-marker")
+	flag(st.genNonASCIIBefore > 0, "gen:non-ascii-before-marker")
+	flag(st.genAstralBefore > 0, "gen:astral-before-marker")
+	flag(st.afterOddTerminator > 0, "marker-on-line-after-cr/u2028/u2029")
+	flag(st.joined > 0, "multi-source")
+	flag(st.namesChecked > 0, "names-verified")
+	flag(st.inlinedConst > 0, "literal-at-identifier(not judged)")
+	var kinds []string
+	for k := range st.kinds {
+		kinds = append(kinds, k)
+	}
+	sort.Strings(kinds)
+	for _, k := range kinds {
+		cls = append(cls, "verified:"+k)
+	}
+	v := vdrv.Pass(st.verified >= 5 && (st.nonASCIIBefore > 0 || st.joined > 0 || st.genNonASCIIBefore > 0), cls...)
+	v.Observed = fmt.Sprintf("%d marker segments verified of %d segments (%d after non-ASCII text, %d after astral text, %d after non-ASCII generated text, %d in joined sources, %d names)",
+		st.verified, st.segments, st.nonASCIIBefore, st.astralBefore, st.genNonASCIIBefore, st.joined, st.namesChecked)
 	return v
 }
 
-func isMarkerToken(t jsref.Token) bool {
-	switch t.Kind {
-	case jsref.TString:
-		return markerStr.MatchString(decodeStringValue(t))
-	case jsref.TNum:
-		return markerNum.MatchString(t.Raw)
-	case jsref.TIdent:
-		return true // any identifier token: either a kept marker or a renamed one (judged through `names`)
+func fail(detail, expected, observed string) *vdrv.Verdict {
+	v := vdrv.Fail(detail, expected, observed)
+	return &v
+}
+
+func skip(reason string) *vdrv.Verdict {
+	v := vdrv.Skip(reason)
+	return &v
+}
+
+// judgeOutput checks one emitted JavaScript file and its map(s). nil = nothing wrong.
+func judgeOutput(c Case, root, jsPath string, outs map[string]string, originals map[string]string, origs map[string]*origFile, st *stats) *vdrv.Verdict {
+	code := outs[jsPath]
+	base := path.Base(jsPath)
+	isModule := c.Format == "esm" || c.Splitting || c.Format == "" && !c.Bundle
+	prog, perr := jsref.Parse(code, jsref.Options{Module: isModule})
+	if perr != nil {
+		prog, perr = jsref.Parse(code, jsref.Options{Module: !isModule})
+		if perr != nil {
+			return skip("jsref-gap")
+		}
+	}
+	// the source map comment, as a real comment of the output
+	var urlComments []string
+	for _, cm := range prog.Comments {
+		if txt := code[cm.Start:cm.End]; cm.Kind == "line" && strings.HasPrefix(txt, "//# sourceMappingURL=") {
+			urlComments = append(urlComments, strings.TrimPrefix(txt, "//# sourceMappingURL="))
+		}
+	}
+	if len(urlComments) > 1 {
+		return fail("more than one sourceMappingURL comment in "+base, "at most one", strings.Join(urlComments, "\n"))
+	}
+	var raws [][]byte
+	mp, hasMapFile := outs[jsPath+".map"]
+	switch c.SourceMap {
+	case "inline", "both":
+		b, ok := smref.InlineURL(code)
+		if !ok || len(urlComments) != 1 || !strings.HasPrefix(urlComments[0], "data:application/json;base64,") {
+			return fail("no inline source map comment in "+base, "//# sourceMappingURL=data:application/json;base64,…", tail(code, 200))
+		}
+		raws = append(raws, b)
+		if c.SourceMap == "inline" && hasMapFile {
+			return fail("sourcemap=inline also emitted "+base+".map", "no map file", "")
+		}
+	}
+	if c.SourceMap != "inline" {
+		if !hasMapFile {
+			return fail("no "+base+".map emitted", "map file", "")
+		}
+		raws = append(raws, []byte(mp))
+		if c.SourceMap == "linked" && (len(urlComments) != 1 || urlComments[0] != base+".map") {
+			return fail("linked source map comment missing or wrong in "+base, "//# sourceMappingURL="+base+".map", tail(code, 200))
+		}
+		if c.SourceMap == "external" && (len(urlComments) != 0 || strings.Contains(code, "sourceMappingURL=")) {
+			return fail("external source map must not be linked from "+base, "no comment", tail(code, 200))
+		}
+	}
+	st.urlComments += len(urlComments)
+
+	genStarts := smref.Lines(code)
+	tokAt := map[pos]jsref.Token{}
+	for _, t := range prog.Tokens {
+		tokAt[pos{t.Line, t.Col16}] = t
+	}
+	for _, raw := range raws {
+		m, err := smref.Parse(raw)
+		if err != nil {
+			return fail("malformed source map for "+base+": "+err.Error(), "well-formed version 3 map", string(raw))
+		}
+		if c.SourceRoot != m.SourceRoot {
+			return fail("sourceRoot not recorded", c.SourceRoot, m.SourceRoot)
+		}
+		if c.NoContent && m.SourcesContent != nil {
+			return fail("sourcesContent present although excluded", "no sourcesContent", "")
+		}
+		if !c.NoContent && len(m.SourcesContent) != len(m.Sources) {
+			return fail("sourcesContent does not have one entry per source", fmt.Sprint(len(m.Sources)), fmt.Sprint(len(m.SourcesContent)))
+		}
+		// resolve sources to original texts
+		srcOrig := make([]*origFile, len(m.Sources))
+		for i, s := range m.Sources {
+			key := path.Base(s)
+			if !c.Compose {
+				// sources are relative to the directory of the map
+				abs := path.Join(path.Dir(jsPath), s)
+				if !strings.HasPrefix(abs, root+"/") {
+					return fail(fmt.Sprintf("map source %q of %s does not resolve to an input file", s, base), "a path below "+root, abs)
+				}
+				key = strings.TrimPrefix(abs, root+"/")
+			}
+			of, ok := origs[key]
+			if !ok {
+				return fail(fmt.Sprintf("map source %q is not one of the original input files", s), "an input file", strings.Join(m.Sources, ","))
+			}
+			srcOrig[i] = of
+			if !c.NoContent {
+				if m.SourcesContent[i] == nil {
+					return fail("sourcesContent missing for "+s, "original text", "null")
+				}
+				if *m.SourcesContent[i] != of.text {
+					return fail("sourcesContent differs from the original file "+s, of.text, *m.SourcesContent[i])
+				}
+			}
+		}
+		// positions in range on both sides
+		if n := strings.Count(m.Mappings, ";") + 1; n > len(genStarts) {
+			return fail(fmt.Sprintf("%s: mappings describe %d lines, the file has %d", base, n, len(genStarts)), "", tail(m.Mappings, 100))
+		}
+		for _, seg := range m.Segments {
+			if seg.GenLine >= len(genStarts) || seg.GenCol > lineLen16(code, genStarts, seg.GenLine) {
+				return fail(fmt.Sprintf("%s: segment at generated %d:%d is beyond the end of the line", base, seg.GenLine, seg.GenCol), "a position inside the generated file", "")
+			}
+			if seg.HasSource {
+				of := srcOrig[seg.Source]
+				if seg.OrigLine >= len(of.starts) || seg.OrigCol > lineLen16(of.text, of.starts, seg.OrigLine) {
+					return fail(fmt.Sprintf("%s: segment at generated %d:%d maps to %s %d:%d, which is outside that file", base, seg.GenLine, seg.GenCol, m.Sources[seg.Source], seg.OrigLine, seg.OrigCol), "a position inside the source", "")
+				}
+			}
+		}
+		st.segments += len(m.Segments)
+		if debug {
+			debugMeasure(c, base, code, prog, m, srcOrig, tokAt)
+		}
+		for _, seg := range m.Segments {
+			if !seg.HasSource {
+				continue
+			}
+			t, ok := tokAt[pos{seg.GenLine, seg.GenCol}]
+			if !ok {
+				continue // synthetic segments (column 0 of a line that starts with white space) are not judged
+			}
+			key, isMarker := markerKey(t)
+			name := ""
+			if seg.HasName {
+				name = m.Names[seg.Name]
+			}
+			renamed := false
+			if !isMarker {
+				// an identifier that lost its name: `names` holds the original. Anything else (punctuation, helpers,
+				// invented identifiers) is not judged.
+				if !isIdentLike(t) || !seg.HasName || !markerIdent.MatchString(strings.TrimPrefix(name, "#")) {
+					continue
+				}
+				renamed = true
+			}
+			of := srcOrig[seg.Source]
+			ot, found := of.tokAt[pos{seg.OrigLine, seg.OrigCol}]
+			where := fmt.Sprintf("%s: the token %q at generated %d:%d is mapped to %s %d:%d", base, t.Raw, seg.GenLine, seg.GenCol, m.Sources[seg.Source], seg.OrigLine, seg.OrigCol)
+			there := ""
+			if off := smref.Offset(of.text, of.starts, seg.OrigLine, seg.OrigCol); off >= 0 {
+				there = clip(of.text[off:], 40)
+			}
+			if !found {
+				return fail(where+", where no token starts", "the start of the original token", there)
+			}
+			okey, _ := markerKey(ot)
+			switch {
+			case renamed:
+				if !isIdentLike(ot) || identName(ot) != name {
+					return fail(where+" with the name "+strconv.Quote(name)+", but the source there reads "+strconv.Quote(ot.Raw), name, there)
+				}
+				st.namesChecked++
+				st.kinds["renamed-identifier"]++
+			case okey == key:
+				if seg.HasName && isIdentLike(t) {
+					if name != identName(ot) {
+						return fail(where+" with the name "+strconv.Quote(name), identName(ot), name)
+					}
+					st.namesChecked++
+				}
+				st.kinds[map[jsref.TokenKind]string{jsref.TString: "string", jsref.TNum: "number", jsref.TIdent: "identifier", jsref.TPrivateName: "private-name", jsref.TTemplateHead: "template", jsref.TTemplateNoSub: "template"}[t.Kind]]++
+			case !isIdentLike(t) && isIdentLike(ot) && okey != "":
+				// a literal printed where the source has a marker identifier: a constant inlined at its use
+				st.inlinedConst++
+				continue
+			default:
+				return fail(where+", where the source reads "+strconv.Quote(clip(ot.Raw, 30)), "the same marker ("+key+")", there)
+			}
+			st.verified++
+			before := of.text[of.starts[seg.OrigLine]:ot.Start]
+			if hasNonASCII(before) {
+				st.nonASCIIBefore++
+			}
+			if hasAstral(before) {
+				st.astralBefore++
+			}
+			if ls := of.starts[seg.OrigLine]; ls > 0 && of.text[ls-1] != '\n' {
+				st.afterOddTerminator++
+			}
+			gbefore := code[genStarts[seg.GenLine]:t.Start]
+			if hasNonASCII(gbefore) {
+				st.genNonASCIIBefore++
+			}
+			if hasAstral(gbefore) {
+				st.genAstralBefore++
+			}
+			if seg.Source > 0 {
+				st.joined++
+			}
+		}
+		// no segment may point INTO a marker token: a mapping names the token that starts at its generated position,
+		// and nothing starts in the middle of a string, number or identifier (this is what an off-by-one or a
+		// byte-vs-UTF-16 column mistake produces)
+		type span struct{ line, from, to int }
+		var lits []span
+		for _, t := range prog.Tokens {
+			if _, ok := markerKey(t); ok && !strings.ContainsAny(t.Raw, "\n\r\u2028\u2029") {
+				lits = append(lits, span{t.Line, t.Col16, t.Col16 + len(jsref.UTF16(t.Raw))})
+			}
+		}
+		byLine := map[int][]span{}
+		for _, l := range lits {
+			byLine[l.line] = append(byLine[l.line], l)
+		}
+		for _, seg := range m.Segments {
+			if !seg.HasSource {
+				continue
+			}
+			for _, l := range byLine[seg.GenLine] {
+				if seg.GenCol > l.from && seg.GenCol < l.to {
+					return fail(fmt.Sprintf("%s: a segment starts at generated %d:%d, in the middle of the marker token that spans columns %d–%d", base, seg.GenLine, seg.GenCol, l.from, l.to), "segments start at token starts", tail(m.Mappings, 200))
+				}
+			}
+		}
+	}
+	return nil
+}
+
+func hasNonASCII(s string) bool {
+	for i := 0; i < len(s); i++ {
+		if s[i] >= 0x80 {
+			return true
+		}
 	}
 	return false
 }
 
-func markerText(t jsref.Token) string {
-	switch t.Kind {
-	case jsref.TString:
-		return markerStr.FindString(decodeStringValue(t))
-	case jsref.TNum:
-		return t.Raw
+func hasAstral(s string) bool {
+	for _, r := range s {
+		if r >= 0x10000 && r != utf8.RuneError {
+			return true
+		}
 	}
-	return t.Ident
+	return false
 }
 
 func clip(s string, n int) string {
 	if len(s) > n {
+		for n > 0 && !utf8.RuneStart(s[n]) {
+			n--
+		}
 		return s[:n]
 	}
 	return s
@@ -462,54 +693,10 @@ func replay(raw json.RawMessage) vdrv.Verdict {
 }
 
 func runMaps(t *testing.T) {
-	H.Rule("maps", "rapid: 1–4 files in which every identifier, string and number is a unique marker, printed with adversarial layout (tabs, CRLF, blank lines, long comments, astral / combining characters and U+2028 before markers on the same line, BOM), single-file and bundled × source map mode {inline, linked, external, both} × sourcesContent on/off × minify {none, whitespace, identifiers, all} × splitting with chunk name templates × banner/footer × sourceRoot × format × composition through a first esbuild pass with inline maps. Oracle: an independent VLQ/source-map reader (smref) and tokenizer (jsref): map well-formed (version 3, sorted, indices in range); every segment that starts at a marker token of the output maps to the start of the same marker in the named ORIGINAL file (UTF-16 columns), renamed identifiers through `names`; ≥60% of marker literals carry a mapping at their start; sourcesContent equals the original text. Non-trivial = ≥5 verified marker segments with ≥1 after non-ASCII text on its line or from a second source")
+	H.Rule("maps", "rapid (unbiased draws): 1–4 files in which every identifier (declarations, parameters, property keys, member names, class members, private names, labels, destructuring, catch bindings, arrow parameters; plain, with a non-ASCII / astral / escaped suffix), string, template head and number is a unique marker, printed with adversarial layout (tabs, LF / CRLF / lone CR / U+2028 / U+2029 between tokens, in comments and raw inside string and template literals, line continuations, NBSP / ZWNBSP / U+3000 / VT / FF, long comments, astral and combining characters before markers on the same line, BOM), single-file and bundled × source map mode {inline, linked, external, both} × sourcesContent on/off × minify {none, whitespace, identifiers, syntax, all} × charset {default, utf8, ascii} × splitting with chunk name templates × banner / footer (multi-line, CR, U+2028, astral) × sourceRoot × format × composition (a) through a first esbuild pass with inline maps, (b) through a compilation step of the generator's own: the tokens of one or two originals are printed again with another layout (re-indent, join, split, header) and the exact map G→O is written by the generator (dense / markers only / mixed, with or without names, sourcesContent all / none / null, sourceRoot, plain or index map with sections, reversed sources, ASCII-escaped JSON) and attached inline (data: URL) or as a sibling / sub-directory .map file on a real scratch tree. Oracle: an independent VLQ/source-map reader (smref) and tokenizer (jsref): map well-formed (version 3, sorted, indices in range, sources/sourcesContent arity, no segment beyond the end of its generated line or outside its source, not more lines than the file); sourceMappingURL comment present exactly as the mode says (a real line comment; inline: no .map file; external: none); sourceRoot recorded; every source resolves (relative to the map) to an original and sourcesContent[i] equals its text; every segment that starts at a marker token of the output maps to the start of the same marker in the named ORIGINAL file (UTF-16 columns, ECMAScript line terminators); an identifier token whose segment carries a marker name must map to that very identifier, and a name on a kept marker must be its own; no segment starts inside a marker token. Not judged: segments that do not start at a token, non-marker tokens, literals printed at the use of an inlined constant. Pre-step cases are validated first (every marker of G has an exact input segment) and discarded otherwise. Non-trivial = ≥5 verified marker segments with ≥1 after non-ASCII text on its original or generated line or from a second source")
 	H.SetupRapid("maps", H.N(2500, 120000))
 	rapid.Check(t, func(rt *rapid.T) {
-		c := Case{Files: map[string]string{}}
-		n := rapid.IntRange(1, 4).Draw(rt, "nfiles")
-		c.Bundle = n > 1 || rapid.Bool().Draw(rt, "bundle")
-		dyn := n > 1 && rapid.IntRange(0, 2).Draw(rt, "dynamic") == 0
-		for i := n - 1; i >= 0; i-- {
-			g := &mg{t: rt, file: i}
-			var imports []string
-			if i == 0 {
-				imports = append(imports, "import { sink } from \"sinkmod\";")
-				for j := 1; j < n; j++ {
-					imports = append(imports, fmt.Sprintf("import \"./f%d.js\";", j))
-				}
-			} else {
-				imports = append(imports, "import { sink } from \"sinkmod\";")
-			}
-			src := g.program(rapid.IntRange(2, 7).Draw(rt, "nstmts"), false, imports)
-			if i == 0 && n > 1 && dyn {
-				// dynamic imports on consecutive lines: with splitting the final (hashed, variable-length) chunk
-				// paths are substituted in front of mapped tokens on the same line
-				for j := 1; j < n; j++ {
-					a, b := g.ident(), g.ident()
-					src += fmt.Sprintf("\nimport(\"./f%d.js\").then((%s) => sink(%s.%s, %s, %s));", j, a, a, b, g.str(), g.num())
-				}
-				src += "\n"
-			}
-			c.Files[fmt.Sprintf("f%d.js", i)] = src
-		}
-		c.SourceMap = rapid.SampledFrom([]string{"inline", "linked", "external", "both"}).Draw(rt, "mode")
-		c.NoContent = rapid.IntRange(0, 3).Draw(rt, "nocontent") == 0
-		c.Minify = rapid.SampledFrom([]string{"", "ws", "ids", "all"}).Draw(rt, "minify")
-		if rapid.IntRange(0, 2).Draw(rt, "banner") == 0 {
-			c.Banner = rapid.SampledFrom([]string{"/* banner */", "// b1\n// b2", "/* é😀 */ var bannerVar = 1;"}).Draw(rt, "bannertext")
-			c.Footer = rapid.SampledFrom([]string{"", "/* footer */"}).Draw(rt, "footertext")
-		}
-		c.SourceRoot = rapid.SampledFrom([]string{"", "", "https://example.com/src/"}).Draw(rt, "sourceroot")
-		if c.Bundle {
-			c.Format = rapid.SampledFrom([]string{"esm", "cjs", "iife"}).Draw(rt, "format")
-			if dyn || (n > 2 && rapid.IntRange(0, 2).Draw(rt, "splitting") == 0) {
-				c.Splitting = true
-				c.ChunkNames = rapid.SampledFrom([]string{"", "chunks/[name]-[hash]", "c-[hash]-long-long-long-name"}).Draw(rt, "chunknames")
-			}
-		} else {
-			c.Format = "esm"
-		}
-		c.Compose = rapid.IntRange(0, 3).Draw(rt, "compose") == 0
+		c := genCase(rt)
 		b, _ := json.Marshal(c)
 		H.Report(rt, "maps", string(b), c, judge(c))
 	})
@@ -521,6 +708,7 @@ func TestCheck(t *testing.T) {
 	H = vdrv.New("C07")
 	complete := false
 	defer func() { H.Finish(complete) }()
+	defer fsgen.RemoveScratch()
 	H.RunReplays(t, subs)
 	H.Sub(t, "maps", runMaps)
 	complete = true
@@ -528,5 +716,51 @@ func TestCheck(t *testing.T) {
 
 func TestReplay(t *testing.T) {
 	H = vdrv.New("C07")
+	defer fsgen.RemoveScratch()
 	H.ReplayOne(t, subs)
+}
+
+// debugMeasure prints (VERIF_C07_DEBUG=1) how often rules that are NOT asserted would fire; used to decide what can be asserted.
+func debugMeasure(c Case, base, code string, prog *jsref.Program, m *smref.Map, srcOrig []*origFile, tokAt map[pos]jsref.Token) {
+	segAt := map[pos]bool{}
+	for _, seg := range m.Segments {
+		segAt[pos{seg.GenLine, seg.GenCol}] = true
+		t, atTok := tokAt[pos{seg.GenLine, seg.GenCol}]
+		if !atTok && seg.GenCol != 0 {
+			fmt.Printf("C07-DEBUG seg-not-at-token minify=%s\n", c.Minify)
+		}
+		if !seg.HasSource {
+			fmt.Printf("C07-DEBUG seg-without-source attoken=%v\n", atTok)
+			continue
+		}
+		of := srcOrig[seg.Source]
+		ot, found := of.tokAt[pos{seg.OrigLine, seg.OrigCol}]
+		if !found {
+			fmt.Printf("C07-DEBUG orig-not-at-token gen=%q compose=%v own=%v\n", t.Raw, c.Compose, c.Originals != nil)
+		}
+		if seg.HasName {
+			name := m.Names[seg.Name]
+			if !markerIdent.MatchString(strings.TrimPrefix(name, "#")) {
+				ok := found && isIdentLike(ot) && identName(ot) == name
+				fmt.Printf("C07-DEBUG nonmarker-name ok=%v name=%s gen=%q orig=%q\n", ok, name, t.Raw, ot.Raw)
+			}
+			if !atTok || !isIdentLike(t) {
+				fmt.Printf("C07-DEBUG name-on-non-ident gen=%q\n", t.Raw)
+			}
+		}
+		if found {
+			if ok, isM := markerKey(ot); isM {
+				gk, _ := markerKey(t)
+				renamedOK := isIdentLike(t) && seg.HasName && m.Names[seg.Name] == identName(ot)
+				if gk != ok && !renamedOK {
+					fmt.Printf("C07-DEBUG reverse-miss col0=%v attoken=%v gen=%q origkey=%s minify=%s compose=%v own=%v fmt=%s\n", seg.GenCol == 0, atTok, clip(t.Raw, 20), ok[:1], c.Minify, c.Compose, c.Originals != nil, c.Format)
+				}
+			}
+		}
+	}
+	for _, t := range prog.Tokens {
+		if k, ok := markerKey(t); ok {
+			fmt.Printf("C07-DEBUG marker-token kind=%s mapped=%v minify=%s own=%v\n", k[:1]+t.Kind.String(), segAt[pos{t.Line, t.Col16}], c.Minify, c.Originals != nil)
+		}
+	}
 }
